@@ -68,7 +68,8 @@ def is_plain_body(body):
 
 def apply_codes(state, codes):
     """Apply a list of ints to a mutable dict state.  Returns set of ambiguity tags met:
-    'incomplete' (38/48/58 without a complete 5;n / 2;r;g;b group), 'range' (colour value > 255).
+    'incomplete' (38/48/58 followed by something else than 5 / 2), 'truncated' (a 5;n / 2;r;g;b group cut short by
+    the end of the list: contributes nothing), 'range' (colour value > 255).
     Ambiguous elements are skipped the way the properties word it (contribute nothing) -- callers
     that hit an ambiguity tag do not assert the style.
     """
@@ -94,6 +95,11 @@ def apply_codes(state, codes):
                     amb.add('range')
                 state[slot] = ('rgb', r, g, b)
                 i += 5
+            elif i + 1 >= n or (codes[i + 1] in (2, 5)):
+                # the group is cut short by the end of the list: it contributes nothing (tag only, the
+                # reading "contributes nothing" is what C18 states; C02 treats the tag as an ambiguity)
+                amb.add('truncated')
+                i = n
             else:
                 amb.add('incomplete')
                 i += 1
@@ -240,6 +246,10 @@ def self_test():
     assert st(51, 52, 53) == {'box': 52, 'over': 53}
     assert st(91, 101) == {'fg': 91, 'bg': 101}
     assert apply_codes({}, [38, 7]) == {'incomplete'}
+    assert apply_codes({}, [3, 38, 2, 1, 2]) == {'truncated'} and apply_codes({}, [38]) == {'truncated'} and apply_codes({}, [38, 5]) == {'truncated'}
+    _s = {}
+    apply_codes(_s, [3, 38, 2, 1, 2])
+    assert _s == {'ital': 3}
     assert apply_codes({}, [38, 5, 256]) == {'range'}
     cells, fin, amb = run('a\x1b[1;31mb\x1b[0mc\x1b[2Kd\x1b[mx')
     assert ''.join(c for c, _ in cells) == 'abc\x1b[2Kdx', cells
